@@ -78,6 +78,12 @@ class NarwhalsMaterializer(FormulaMaterializer):
     ) -> Any:
         if drop_rows:
             values = drop_nulls(values, indices=drop_rows)
+        if isinstance(values, nw.Series) and (
+            values.dtype.is_integer() or values.dtype == nw.Boolean
+        ):
+            # Products and scalings of columns are taken in the dtype of the
+            # columns: narrow integer types would wrap around.
+            values = values.cast(nw.Float64)
         if spec.output == "sparse":
             return spsparse.csc_matrix(
                 numpy.array(values).reshape((values.shape[0], 1))
